@@ -15,6 +15,7 @@ CONSTANTS
   FixFirstRep = FALSE
   FixShort = FALSE
   FixNilReq = FALSE
+  FixBadReq = FALSE
 VIEW view
 INVARIANTS TypeOK OwnIndexOnly CorrectModuloKnown
 CHECK_DEADLOCK FALSE
